@@ -21,7 +21,9 @@ RULE = (
     'has several write batches). Operations: run a step (classify, '
     'set-zeta-grid, set-curvature, rise, recession; generated arguments) '
     'cleanly - possibly out of order or a second time, when it must fail by '
-    'itself; run it with an injected sqlite3.OperationalError at statement k; '
+    'itself (e.g. set-zeta-grid -d 0, which fails after its first write); run it '
+    'with an injected error at statement k (sqlite3.OperationalError, a '
+    'RuntimeError that is not a database error, or KeyboardInterrupt); '
     'run it with a simulated kill at statement k (snapshot of file + journal '
     'taken under PRAGMA cache_size=1, then opened for hot-journal recovery); '
     'k = 1 + floor(frac*N), N learned from a counting dry run on a copy. '
@@ -44,7 +46,7 @@ ASSUMPTIONS = [
 ]
 
 STEPS = ['classify', 'set-zeta-grid', 'set-curvature', 'rise', 'recession']
-GRIDS = ['1.0', '0.5', '2.0']
+GRIDS = ['1.0', '0.5', '2.0', '0']  # '0': fails by itself after its first write
 CURVATURES = ['0.5', '2.36']
 
 
@@ -107,7 +109,7 @@ class Machine:
             else:
                 with faults.injected(plan):
                     dataset.cli(argv)
-        except faults.SimulatedKill as exc:
+        except (faults.SimulatedKill, KeyboardInterrupt) as exc:
             return exc
         except Exception as exc:  # pylint: disable=broad-except
             return exc
@@ -189,7 +191,8 @@ def apply_op(machine, op, labels):
     k = 1 + min(n - 1, int(op['frac'] * n))
     after_write = first_write is not None and k > first_write
     if kind == 'fault':
-        plan = faults.Plan('fault', k=k)
+        plan = faults.Plan('fault', k=k, exception=op.get('exc', 'sqlite'))
+        labels.add('fault-kind-' + op.get('exc', 'sqlite'))
         error = machine.run(step, arg, plan=plan)
         machine.settle(step, arg, 'fault')
         if plan.fired:
@@ -248,6 +251,8 @@ def histories(draw, tier):
             'step': st.sampled_from(STEPS),
             'arg': st.integers(0, 3),
             'frac': st.floats(0.0, 0.999),
+            'exc': st.sampled_from(['sqlite', 'sqlite', 'runtime',
+                                    'interrupt']),
         }), min_size=4, max_size=12))
     record['ops'] = ops
     return record
@@ -291,9 +296,10 @@ def check_every_statement(case):
             n, first_write, _ = machine.count_statements(step, 0)
             for k in range(1, n + 1):
                 frac = (k - 1 + 0.5) / n
-                for kind in ('fault', 'kill'):
+                for kind, exc in (('fault', 'sqlite'), ('fault', 'runtime'),
+                                  ('kill', None)):
                     apply_op(machine, {'kind': kind, 'step': step, 'arg': 0,
-                                       'frac': frac}, labels)
+                                       'frac': frac, 'exc': exc}, labels)
                     points += 1
             apply_op(machine, {'kind': 'run', 'step': step, 'arg': 0},
                      labels)
